@@ -12,32 +12,6 @@ import (
 // vCheckC28 states the clauses of C28 on the result of the real Combine for one shape.
 func vCheckC28(paths []Path, refs []vRef, findAllIdentical bool, observeOrdered bool) {
 	verif.Observe("npaths", len(paths))
-	// earliest hop-field expiry of every reference combination, by case split on which hop field
-	// expires first (one fork per comparison): the minimum of symbolic lexicographic times is hard
-	// for the solver in one piece and easy per case
-	earliest := make([]time.Time, len(refs))
-	// Within one segment all hop fields share the timestamp, so the earliest is the one with the
-	// smallest ExpTime (split on 8-bit comparisons); across segments the split is on the times.
-	for ri := range refs {
-		first := true
-		for pi := range refs[ri].parts {
-			part := &refs[ri].parts[pi]
-			mi := 0
-			for h := 1; h < len(part.hops); h++ {
-				if part.hops[h].exp < part.hops[mi].exp {
-					verif.Cover("expiry-order-split") // (also keeps the engine from if-converting the split)
-					mi = h
-				}
-			}
-			if first {
-				earliest[ri] = part.exps[mi]
-				first = false
-			} else if part.exps[mi].Before(earliest[ri]) {
-				verif.Cover("expiry-order-split-across-segments")
-				earliest[ri] = part.exps[mi]
-			}
-		}
-	}
 	var sumMTU, sumW uint64
 	var sumExp int64
 	for k := range paths {
@@ -68,29 +42,37 @@ func vCheckC28(paths []Path, refs []vRef, findAllIdentical bool, observeOrdered 
 		// -- the path is one of the combinations of at most one up, one core, one down segment (in
 		//    that order) with info and hop fields taken from the input; interfaces, expiry and MTU
 		//    agree with that combination
+		exp := p.Metadata.Expiry
 		var okRaw, okIntf, okMTU, okWeight uint8
-		ms := make([]uint8, len(refs))
 		for ri := range refs {
 			r := &refs[ri]
 			m := vB2U(r.valid) & vSameBytes(raw, r.raw())
 			okRaw |= m
 			m &= vSameIntfs(intfs, r.interfaces())
 			okIntf |= m
-			okMTU |= m & vB2U(p.Metadata.MTU == r.mtu())
+			// minimum of the listed MTUs: not above any of them, equal to one of them
+			var mtuLE, mtuEQ uint8 = 1, 0
+			for _, v := range r.mtus() {
+				mtuLE &= vB2U(p.Metadata.MTU <= v)
+				mtuEQ |= vB2U(p.Metadata.MTU == v)
+			}
+			okMTU |= m & mtuLE & mtuEQ
 			okWeight |= m & vB2U(p.Weight == r.links())
-			ms[ri] = m
+			// earliest hop-field expiry: not later than any hop field used, equal to one of them.
+			// Every combination with these path bytes has the same hop-field expiries (timestamps
+			// and ExpTime are part of the bytes), so the clause is stated for each matching
+			// combination, one obligation per hop field (small queries).
+			var expEQ uint8
+			for _, v := range r.expiries() {
+				verif.Assert("expiry-not-after-any-hop-field-expiry", m&vB2U(v.Before(exp)) == 0)
+				expEQ |= vB2U(exp.Equal(v))
+			}
+			verif.Assert("expiry-is-a-hop-field-expiry", m&(1-expEQ) == 0)
 		}
 		verif.Assert("fields-taken-from-one-up-core-down-combination", okRaw == 1)
 		verif.Assert("interfaces-are-those-the-hop-fields-traverse", okIntf == 1)
 		verif.Assert("mtu-is-minimum-of-internal-and-link-mtus", okMTU == 1)
 		verif.Assert("weight-is-number-of-links", okWeight == 1)
-		// earliest hop-field expiry: later than none of the hop fields used, equal to one of them.
-		// Every combination with these path bytes has the same hop-field expiries (timestamps and
-		// ExpTime are part of the bytes), so the clause is stated for each matching combination.
-		for ri := range refs {
-			verif.Assert("expiry-is-earliest-hop-field-expiry",
-				ms[ri]&(1-vB2U(p.Metadata.Expiry.Equal(earliest[ri]))) == 0)
-		}
 
 		// -- ordered by non-decreasing weight
 		if k > 0 {
@@ -108,8 +90,13 @@ func vCheckC28(paths []Path, refs []vRef, findAllIdentical bool, observeOrdered 
 			for ri := range refs {
 				r := &refs[ri]
 				same := vB2U(r.valid) & vSameIntfs(intfs, r.interfaces())
-				// p.Expiry >= earliest hop-field expiry of r
-				verif.Assert("kept-duplicate-has-latest-expiry", same&vB2U(earliest[ri].After(p.Metadata.Expiry)) == 0)
+				// the combination r expires no later than the path kept: some hop field of r expires
+				// at or before p.Expiry
+				var notLater uint8
+				for _, v := range r.expiries() {
+					notLater |= 1 - vB2U(exp.Before(v))
+				}
+				verif.Assert("kept-duplicate-has-latest-expiry", same&(1-notLater) == 0)
 			}
 		}
 		sumMTU += uint64(p.Metadata.MTU)
@@ -128,10 +115,12 @@ func vCheckC28(paths []Path, refs []vRef, findAllIdentical bool, observeOrdered 
 // VerifC28Shape: real Combine on the segment sets of one shape, all attributes symbolic.
 func VerifC28Shape() {
 	shape := verif.Param("shape")
+	vExpBits = verif.Param("expbits")
 	src, dst, ups, cores, downs := vShape(shape)
 	verif.AssumeInjective("sha256", 0)
 	all := verif.NondetBool("findAllIdentical")
 	refs := vEnumerate(src, dst, ups, cores, downs)
+	vExpiryLemmas(ups, cores, downs)
 	paths := Combine(src, dst, ups, cores, downs, all)
 	verif.Cover("combined")
 	if len(paths) > 0 {
@@ -167,6 +156,16 @@ func VerifC28Twin() {
 	paths := Combine(src, dst, ups, cores, downs, false)
 	verif.Assume(len(paths) == 1)
 	verif.Assert("twin", paths[0].Metadata.MTU == uint16(ups[0].ASEntries[1].MTU))
+}
+
+// VerifC28TwinExpiry must fail: the expiry is not always that of the first hop field of the path (the
+// earliest one may be any of them).
+func VerifC28TwinExpiry() {
+	src, dst, ups, cores, downs := vShape(0)
+	paths := Combine(src, dst, ups, cores, downs, false)
+	verif.Assume(len(paths) == 1)
+	e := ups[0].ASEntries[1].HopEntry.HopField.ExpTime
+	verif.Assert("twin-expiry", paths[0].Metadata.Expiry.Equal(vHopExpiry(vTS(ups[0]), e)))
 }
 
 var _ = time.Second
